@@ -62,6 +62,7 @@ func (s *swarm[A]) Tell(ctx context.Context, addr A, data p2p.IOVec) error {
 	s.mu.Lock()
 	id := s.msgIDs[keyForAddr(addr)]
 	s.msgIDs[keyForAddr(addr)]++
+	id += firstMsgID()
 	s.mu.Unlock()
 
 	size := p2p.VecSize(data)
